@@ -143,27 +143,35 @@ def rule_arena(ctx, rep):
         rep.check(grows, "C15.arena", "expand.grows", "the in-place remap enlarges the chunk (new - old = %s)" % linear.show(diff),
                   "the in-place remap does not enlarge the chunk (new size - old size = %s): registered readers' slots beyond the new end are unmapped / no slot is gained" % linear.show(diff), [c.where()])
     # every chunk handed to the arena has its capacity recorded before it becomes reachable, and the capacity matches its size
-    adds = [i for i in ex.all_insts() if (i.op == "store" and pat.from_fn_opt(i, "cds_list_add_tail")) or (i.op == "call" and i.callee in ("cds_list_add_tail", "cds_list_add"))]
-    caps = [s_ for s_ in pat.stores(ex, "registry_chunk.capacity")]
-    mm_new = [c_ for c_ in ex.calls("mmap")]
-    pat.require(adds and caps and mm_new, "expand_arena: new-chunk anatomy")
-    for c_ in mm_new:
-        mine = [s_ for s_ in caps if ir.ap_str(ex, s_.d["ap"]).startswith("mmap()#%d." % c_.id)]
-        my_adds = [a_ for a_ in adds if ex.reach([c_], [a_])[0] is not None and ex.reach([c_], [a_], avoid=lambda i: i.op == "call" and i.callee == "mmap" and i is not c_)[0] is not None]
-        if not mine:
-            rep.bad("C15.arena", "expand.capacity-set@%d" % c_.line, "a freshly mapped chunk is linked into the arena without its capacity being recorded (capacity 0: the chunk is always `full`, every registration expands again)", [c_.where()])
+    # (decided in whichever function of the library maps a chunk: expand_arena itself or a helper extracted from it)
+    rd = pm.structs.get("urcu_bp_reader")
+    nmap = 0
+    for g in [ctx.fn("bp", "urcu_bp_register")]:      # flattened root: expand_arena and whatever helpers it uses are inlined
+        mm_new = [c_ for c_ in g.calls("mmap")]
+        if not mm_new:
             continue
-        rep.must_pass("C15.arena", "expand.capacity-set@%d" % c_.line, ex, [c_], my_adds, lambda i: i in mine, what="capacity is stored before the new chunk is linked into chunk_list")
-        # capacity * sizeof(reader) + header == mapped size
-        sz = linear.norm(ir.expr(ex, c_.args[1], 8))
-        cap = linear.norm(ir.expr(ex, mine[0].args[0], 8))
-        rd = pm.structs.get("urcu_bp_reader")
-        if sz is not None and cap is not None and rd:
-            want = {t_: c2 * rd["size"] for t_, c2 in cap.items()}
-            d2 = linear.sub(sz, want)
-            okc = set(d2) <= {1} and 0 <= d2.get(1, 0) <= 4096
-            rep.check(okc, "C15.arena", "expand.capacity=size@%d" % c_.line, "recorded capacity times the slot size plus the chunk header is the mapped size",
-                      "recorded capacity (%s slots of %d bytes) does not match the mapped size %s: arena_alloc hands out slots beyond the mapping" % (linear.show(cap), rd["size"], linear.show(sz)), [mine[0].where()])
+        adds = [i for i in g.all_insts() if i.op == "store" and pat.from_fn_opt(i, "cds_list_add_tail") and pat.from_fn_opt(i, "expand_arena")]
+        caps = [s_ for s_ in pat.stores(g, "registry_chunk.capacity")]
+        if not adds:
+            continue
+        rep.touch(g)
+        for c_ in mm_new:
+            nmap += 1
+            mine = [s_ for s_ in caps if ir.ap_str(g, s_.d["ap"]).startswith("mmap()#%d." % c_.id)]
+            my_adds = [a_ for a_ in adds if g.reach([c_], [a_], avoid=lambda i: i.op == "call" and i.callee == "mmap" and i is not c_)[0] is not None]
+            if not mine:
+                rep.bad("C15.arena", "expand.capacity-set@%d" % c_.line, "a freshly mapped chunk is linked into the arena without its capacity being recorded (capacity 0: the chunk is always `full`, every registration expands again)", [c_.where()])
+                continue
+            rep.must_pass("C15.arena", "expand.capacity-set@%d" % c_.line, g, [c_], my_adds, lambda i: i in mine, what="capacity is stored before the new chunk is linked into chunk_list")
+            sz = linear.norm(ir.expr(g, c_.args[1], 8))
+            cap = linear.norm(ir.expr(g, mine[0].args[0], 8))
+            if sz is not None and cap is not None and rd and not any(isinstance(t_, tuple) and t_[0] == "t" and "arg" in t_[1] for t_ in list(sz) + list(cap)):
+                want = {t_: c2 * rd["size"] for t_, c2 in cap.items()}
+                d2 = linear.sub(sz, want)
+                okc = set(d2) <= {1} and 0 <= d2.get(1, 0) <= 4096
+                rep.check(okc, "C15.arena", "expand.capacity=size@%d" % c_.line, "recorded capacity times the slot size plus the chunk header is the mapped size",
+                          "recorded capacity (%s slots of %d bytes) does not match the mapped size %s: arena_alloc hands out slots beyond the mapping" % (linear.show(cap), rd["size"], linear.show(sz)), [mine[0].where()])
+    pat.require(nmap >= 1, "bp: no function maps a registry chunk")
     w = pm.fn("mremap_wrapper")
     if w is not None:
         for c in pat.calls(w, "mremap"):
